@@ -62,7 +62,7 @@ def proj_c15(l):
     if l.startswith("stat "):
         m = re.search(r"cache=(\S+)", l)
         return "stat " + (m.group(0) if m else l)
-    if l.startswith("res "):
+    if l.startswith(("res ", "statdrain")):
         return l
     return None
 
@@ -351,6 +351,11 @@ def oracle_c15(script, ig, mg):
     """Accounting on the implementation alone: reported item count and size
     equal what the resident list says (every `stat` is followed by `res`)."""
     fails = []
+    for g in ig:
+        if g.line.startswith("statdrain torn"):
+            # a stat() taken on another thread while a drain ran shows a count and a size that belong
+            # to no resident set
+            return [("stat-report-torn-under-concurrent-drain", {"line": g.line})]
     # after the worker is idle and the evictable entries are drained: nothing at or below the boundary
     for j, l in enumerate(script):
         if l != "drain":
@@ -848,6 +853,33 @@ def scripts_c15(tier, rng):
                     out.append((f"c15ow_{k}", lines))
                     k += 1
     stats["append-onto-occupied-index"] = k
+    # a chunk with more than a thousand resident entries becomes evictable at once: the next insert has
+    # to evict all of them
+    for j in range(1 if tier == "quick" else 3):
+        mr = rng.choice([1100, 1300, 2100])
+        n = mr - 1
+        lines = [f"cfg mr={mr} ci={rng.choice([0, 8])}", "open"]
+        for a in range(0, n, 300):
+            lines.append("app " + " ".join(f"1,{x},x7:{x % 250}" for x in range(a, min(n, a + 300))))
+        lines += ["stat", "res", "flush 1", "widle", "stat", "res", f"app 1,{n},aa", "stat", "res", f"app 1,{n + 1},bb",
+                  "stat", "res", "flush 2", "widle", "drain", "stat", "res"]
+        out.append((f"c15huge_{j}", lines))
+    stats["more-than-1024-evictions-at-once"] = 1 if tier == "quick" else 3
+    # stat() on two other threads while a drain runs: uniform payloads, so a torn report (count from
+    # before the drain, size from after) is recognisable
+    rounds = 0
+    for j in range(4 if tier == "quick" else 16):
+        mr = 4 + rng.below(4)
+        lines = [f"cfg mr={mr}", "open"]
+        ix = 0
+        for _ in range(60 if tier == "quick" else 120):
+            k = mr + rng.below(mr)
+            lines += ["app " + " ".join(f"1,{x},x48:{x % 250}" for x in range(ix, ix + k)), f"flush {ix}", "widle", "statdrain 48"]
+            ix += k
+            rounds += 1
+        lines += ["stat", "res"]
+        out.append((f"c15race_{j}", lines))
+    stats["stat-versus-drain-rounds"] = rounds
     return out, stats
 
 
